@@ -156,7 +156,7 @@ def battery(ctx, rng, size):
         for alg in G.algs_for(name, pool[name]):
             prod.append(("jws.sig", {"jws": {"payload": pay}, "sig": {"protected": {"alg": alg}}, "jwk": pool[name]}))
     multi = [[pool["oct-32"], pool["oct-64"]], [pool["oct-48"], pool["RSA-2048"], pool["oct-128"]],
-             {"keys": [pool["oct-32"], pool["RSA-2048"]]}, [pool["EC-P256"], pool["oct-32"]]]
+             {"keys": [pool["oct-32"], pool["RSA-2048"]]}, [pool["EC-P256"], pool["oct-32"]], [pool["oct-32"]], {"keys": [pool["EC-P256"]]}]
     for ks in multi:
         for t in ({}, {"header": {"kid": "shared"}}, {"protected": {"typ": "JWT"}}, {"protected": {"typ": "x"}, "header": {"kid": "k"}}):
             prod.append(("jws.sig", {"jws": {"payload": pay}, "sig": t, "jwk": ks}))
@@ -166,9 +166,11 @@ def battery(ctx, rng, size):
             key = E.key_for(pool, wrap, enc, rng)
             prod.append(("jwe.enc", {"jwe": {"protected": {"alg": wrap, "enc": enc}}, "jwk": key, "pt": rng.randbytes(40).hex(),
                                      "rand": rng.randbytes(200).hex(), "_key": key}))
-    emulti = [[pool["oct-16"], pool["oct-32"]], [pool["RSA-2048"], pool["EC-P256"], pool["oct-24"]], {"keys": [pool["EC-P384"], pool["oct-16"]]}]
+    # (sets of ONE key too: a set is a set - the template is copied per key and stays the caller's)
+    emulti = [[pool["oct-16"], pool["oct-32"]], [pool["RSA-2048"], pool["EC-P256"], pool["oct-24"]], {"keys": [pool["EC-P384"], pool["oct-16"]]},
+              [pool["EC-P256"]], {"keys": [pool["oct-16"]]}, {"keys": [pool["EC-P521"]]}]
     for ks in emulti:
-        for t in ({}, {"header": {"kid": "shared"}}):
+        for t in ({}, {"header": {"kid": "shared"}}, {"header": {"kid": "shared", "x": {"y": [1]}}}):
             prod.append(("jwe.enc", {"jwe": {"protected": {"enc": "A128GCM"}}, "rcp": t, "jwk": ks, "pt": "00ff", "rand": rng.randbytes(400).hex(), "_key": ks}))
             prod.append(("jwe.enc_jwk", {"jwe": {"protected": {"enc": "A256GCM"}}, "rcp": t, "jwk": ks, "cek": {}, "rand": rng.randbytes(400).hex()}))
     # compression in the protected header (the read-only calls then run the inflater, and the helper that looks for "zip")
